@@ -1568,6 +1568,15 @@ void MEDDLY::forest::markAllRoots()
 }
 
 
+#ifdef MEDDLY_VERIF
+void MEDDLY::forest::verifRoots(std::vector<node_handle> &out) const
+{
+    for (const dd_edge* r = roots; r; r=r->next) {
+        out.push_back(r->node);
+    }
+}
+#endif
+
 void MEDDLY::forest::unregisterDDEdges()
 {
     // Unregister ALL root edges
